@@ -210,7 +210,7 @@ func Generate(prop string, r *sim.Rand, tier string) *sim.Plan {
 		cfg.World.GasLimit = []uint64{1000000, 3000000, 10000000}[r.Intn(3)]
 	}
 	cfg.SplitGroups = prop == "C06"
-	cfg.RuleOps = ((prop == "C03" || prop == "C16") && r.Chance(0.5)) || (prop == "C01" && len(cfg.Rules) > 0 && r.Chance(0.5))
+	cfg.RuleOps = ((prop == "C03" || prop == "C16" || prop == "C17") && r.Chance(0.5)) || (prop == "C01" && len(cfg.Rules) > 0 && r.Chance(0.5))
 	cfg.RoleOps = prop == "C14" && r.Chance(0.4)
 	cfg.AuditOps = prop == "C16" && r.Chance(0.5)
 	switch prop {
